@@ -56,6 +56,9 @@ func c04CheckSequence(prefix string, seq []v1beta1.FinalisingStepType, reason st
 		// C10: rollback puts traffic back on stable first
 		verifrt.Assert(route == 0, prefix+".rollback.trafficToStableFirst")
 		verifrt.Assert(route < resume && route < release, prefix+".rollback.trafficBeforeWorkload")
+		// ... and keeps it there: the stable Service stays pinned to the stable revision until the workload was
+		// resumed (new-revision pods replaced); un-pinned earlier it would spread the traffic over the pods being rolled back
+		verifrt.Assert(resume < restoreSvc, prefix+".rollback.stableServicePinnedUntilWorkloadResumed")
 	} else {
 		// stable pods are about to be replaced: the stable Service is un-pinned before that
 		verifrt.Assert(restoreSvc < resume, prefix+".stableServiceUnpinnedBeforeStablePodsReplaced")
